@@ -28,6 +28,8 @@ func main() {
 	only := flag.String("rule", "", "run only this rule (diagnostic; no evidence written)")
 	explain := flag.String("explain", "", "print a violations file and exit")
 	debug := flag.String("debug", "", "print engine internals (eff|sm) and exit")
+	genNames := flag.Bool("gen-names", false, "write the reference inventory of unexported names (spec/names.json) from -repo and exit")
+	noNorm := flag.Bool("no-align", false, "do not align identifier names with spec/names.json")
 	embed := flag.String("embed", "", "key:file[,key:file…] - embed JSON files into the evidence under coverage.<key> (informational)")
 	also := flag.String("also", "", "label:exitcode:logfile of a run of the same check under another build configuration; verdicts must agree")
 	flag.Parse()
@@ -57,7 +59,37 @@ func main() {
 
 	start := time.Now()
 	abs, _ := filepath.Abs(*repo)
-	p, err := core.Load(abs, *goarch)
+	if *genNames {
+		if err := core.GenNames(abs, filepath.Join(*verif, "spec", "names.json")); err != nil {
+			fmt.Fprintf(os.Stderr, "wucheck: %v\n", err)
+			os.Exit(2)
+		}
+		return
+	}
+	// align the names of unexported entities with the reference inventory (core/canon.go): when some differ, an
+	// alpha-renamed scratch copy of the current tree is analysed instead (same lines, same semantics)
+	analysed := abs
+	var renamings []core.Renaming
+	if !*noNorm {
+		dir, rn, nerr := core.Normalise(abs, *verif)
+		if nerr != nil {
+			fmt.Fprintf(os.Stderr, "wucheck: name alignment failed (%v): analysing the tree as it is\n", nerr)
+		} else if dir != abs {
+			analysed, renamings = dir, rn
+			defer os.RemoveAll(dir)
+		}
+	}
+	p, err := core.Load(analysed, *goarch)
+	if err != nil && analysed != abs {
+		// the renamed copy does not build (an identifier the alignment could not rename consistently): fall back
+		fmt.Fprintf(os.Stderr, "wucheck: the name-aligned copy does not load (%v): analysing the tree as it is\n", err)
+		os.RemoveAll(analysed)
+		analysed, renamings = abs, nil
+		p, err = core.Load(abs, *goarch)
+	}
+	if len(renamings) > 0 {
+		fmt.Printf("note: %d identifiers of the current source are known to the rules under their reference names (e.g. %s %s is %s); reports use the reference names\n", len(renamings), renamings[0].What, renamings[0].From, renamings[0].To)
+	}
 	if err != nil {
 		fmt.Fprintf(os.Stderr, "wucheck: cannot analyse %s: %v\n", abs, err)
 		failAll(*prop, *tier, seed, *out, err, start)
@@ -143,6 +175,17 @@ func main() {
 			res.Explanation = "static obligations discharged by repository-specific rules"
 		}
 		res.Classify(findings)
+		if len(renamings) > 0 {
+			var rl []string
+			for _, r := range renamings {
+				rl = append(rl, r.What+": "+r.From+" → "+r.To)
+			}
+			res.Extra["name_alignment"] = map[string]interface{}{
+				"what":       "identifiers of the analysed source that the rules know under the names of the reference inventory (spec/names.json); the analysis ran on an alpha-renamed copy of the current tree (same lines, same semantics) and reports use the reference names",
+				"renamings":  rl,
+				"unmatched_": "reference entities without a counterpart keep no alias: rules that need them report an unresolved anchor",
+			}
+		}
 		for _, one := range strings.Split(*embed, ",") {
 			if parts := strings.SplitN(one, ":", 2); len(parts) == 2 {
 				if b, err := os.ReadFile(parts[1]); err == nil {
